@@ -18,13 +18,13 @@ ASSUMPTIONS = ["shape tolerance 1e-9 * exact magnitude scale", "knot vectors com
 
 @st.composite
 def ins_desc(draw):
-    k = draw(st.sampled_from(["in", "in", "knot", "knot"]))
+    k = draw(st.sampled_from(["in", "in", "knot", "knot", "other"]))
     return [k, draw(st.integers(0, 63)), draw(st.integers(1, 63)) / 64.0, draw(st.integers(0, 7))]
 
 
-def pick_insert(p, kv, n, desc):
+def pick_insert(p, kv, n, desc, others=()):
     """(u, s, r): an admissible insertion derived from the descriptor against the CURRENT knot vector."""
-    u, kind = build.resolve_param(p, kv, n, desc[:3])
+    u, kind = build.resolve_param(p, kv, n, desc[:3], others=others)
     s = shape.multiplicity(kv, u)
     if kind in ("start", "end") or s >= p:
         u, kind = build.resolve_param(p, kv, n, ["in", desc[1], desc[2]])
@@ -88,13 +88,14 @@ def check_insert(case, ctx):
         for k, desc in enumerate(op["dirs"]):
             if desc is None:
                 continue
-            pick = pick_insert(degs[k], kvs[k], szs[k], desc)
+            pick = pick_insert(degs[k], kvs[k], szs[k], desc, others=[o for j, o in enumerate(kvs) if j != k])
             if pick is None:
                 continue
             u, s, r = pick
             params[k], nums[k] = u, r
             onknot = onknot or s >= 1
             rge2 = rge2 or r >= 2
+            ctx.label("param-is-knot-of-other-direction", desc[0] == "other" and any(u in o for j, o in enumerate(kvs) if j != k))
         if all(x is None for x in params):
             continue
         multi = multi or sum(1 for x in params if x is not None) >= 2
@@ -108,7 +109,7 @@ def check_insert(case, ctx):
                           "insertion in %r changed direction %d: kv %r -> %r, size %d -> %d" % (params, k, kvs[k], nkvs[k], szs[k], nszs[k]))
             else:
                 want = sorted(kvs[k] + [params[k]] * nums[k])
-                ctx.check(nkvs[k] == want, "knot-vector",
+                ctx.check(shape.kv_close(nkvs[k], want), "knot-vector",
                           "after inserting %r x%d (dir %d) the knot vector is %r, expected %r" % (params[k], nums[k], k, nkvs[k], want))
                 ctx.check(nszs[k] == szs[k] + nums[k], "net-size",
                           "after inserting %r x%d (dir %d) the size is %d, expected %d" % (params[k], nums[k], k, nszs[k], szs[k] + nums[k]))
